@@ -74,7 +74,7 @@ func base() (*casstore.Store, error) {
 		for _, p := range []struct {
 			name, cidr string
 			bs         int
-		}{{"pool-v4", "10.23.0.0/26", 30}, {"pool-v6", "fd00:23::/122", 126}} {
+		}{{"pool-v4", "10.23.0.32/27", 30}, {"pool-v6", "fd00:23::20/123", 126}} {
 			pool := apiv3.NewIPPool()
 			pool.Name = p.name
 			pool.Spec.CIDR = p.cidr
@@ -151,8 +151,9 @@ type world struct {
 	faultP    float64
 	faultCnt  map[string]int
 	podGetCnt map[string]int
-	faultsIn  int // faults injected during the current sync
-	nodeGetF  int // node Get faults during the current sync
+	lastHost  map[string]string // block CIDR -> last affinity seen in the store
+	faultsIn  int               // faults injected during the current sync
+	nodeGetF  int               // node Get faults during the current sync
 
 	// oracle model (oracle.go)
 	vnow       int64
@@ -178,7 +179,7 @@ func newWorld(c *harness.Case) (*world, error) {
 	}
 	r := c.R
 	w := &world{c: c, st: b.Clone(), apiPods: map[string]*v1.Pod{}, apiNodes: map[string]*v1.Node{}, pods: map[string]*podRec{},
-		faultCnt: map[string]int{}, podGetCnt: map[string]int{}, V: map[string]*vblock{}, delivNodes: map[string]string{}}
+		faultCnt: map[string]int{}, podGetCnt: map[string]int{}, lastHost: map[string]string{}, V: map[string]*vblock{}, delivNodes: map[string]string{}}
 	w.adminBC = w.st.NewAdminClient("admin")
 	w.admin = clientv3.NewFromBackend(apiCfg, w.adminBC)
 	w.cni = clientv3.NewFromBackend(apiCfg, w.st.NewAdminClient("cni")).IPAM()
@@ -227,6 +228,15 @@ func newWorld(c *harness.Case) (*world, error) {
 		}
 		w.qmu.Lock()
 		w.sq = append(w.sq, syncEvt{kvp: kvp})
+		if bk, ok := wr.Key.(model.BlockKey); ok && kvp.Value != nil {
+			if b := kvp.Value.(*model.AllocationBlock); b.Affinity != nil {
+				cidr := bk.CIDR.String()
+				if prev, ok := w.lastHost[cidr]; ok && prev != *b.Affinity {
+					w.c.Count("store_blocks_reclaimed_by_another_node", 1)
+				}
+				w.lastHost[cidr] = *b.Affinity
+			}
+		}
 		w.qmu.Unlock()
 	}
 	w.st.PreOp = w.preOp
